@@ -21,7 +21,7 @@ import numpy as np
 from vlib import refs
 from vlib import mainloop as ml
 from vlib import drivers  # noqa: F401
-from vlib.ctx import Acc, HarnessError, VERIF, stopped
+from vlib.ctx import scratch_dir, Acc, HarnessError, VERIF, stopped
 
 LEVEL = "exploration"
 MONS = ["C05"]
@@ -173,7 +173,7 @@ def run(ctx):
         ctx.take(r)
     n_nojit = ctx.cov["evaluations"]
     # JIT-compiled kernels in a separate process
-    out = tempfile.mkdtemp(prefix="c05_", dir=os.path.join(VERIF, "replays"))
+    out = scratch_dir("c05_")
     path = os.path.join(out, "jit.json")
     try:
         p = subprocess.run([sys.executable, "-m", "vlib.run", "C05", "--tier", ctx.tier, "--mode", "jit",
